@@ -980,6 +980,26 @@ func fixedCases() []*tcase {
 		{"BenchmarkP 1 0 allocs/op 4 ns/op", "BenchmarkQ 1 4 allocs/op 5 ns/op", "BenchmarkR 1 9 allocs/op 7 ns/op"}})
 	g.geo = true
 	out = append(out, g)
+	// one retained value on one side (1 vs 3..6 values), nothing retained on one side, under every built-in test:
+	// the note must be the documented reason "(too few samples)" (TTest: n <= 1, UTest: n = 0)
+	for _, test := range []string{"t", "u", "-", "n"} {
+		for k := 3; k <= 6; k++ {
+			var many []string
+			for j := 0; j < k; j++ {
+				many = append(many, fmt.Sprintf("BenchmarkX 1 %d ns/op %d.5 MB/s", 20+j, 7+j))
+			}
+			one := []string{"BenchmarkX 1 10 ns/op 3 MB/s"}
+			a := mk([]string{"old", "new"}, [][]string{one, many})
+			b := mk([]string{"old", "new"}, [][]string{many, one})
+			c := mk([]string{"old", "new"}, [][]string{{"BenchmarkX 1 NaN ns/op", "BenchmarkX 1 10 ns/op"}, many}) // nothing retained on one side
+			for _, tc := range []*tcase{a, b, c} {
+				tc.test = test
+				tc.noguard = true
+				tc.tags["fewsamples"] = true
+				out = append(out, tc)
+			}
+		}
+	}
 	// overflow corner of stats.Mean: Max − Min is not representable, the float mean becomes +Inf
 	ovfA := mk([]string{"old", "new"}, [][]string{
 		{"BenchmarkX 1 -1.7976931348623157e308 ns/op", "BenchmarkX 1 1.7976931348623157e308 ns/op"},
